@@ -446,7 +446,17 @@ func AllTopologies(nbTips int, rooted bool, tipNames ...string) (trees []*Tree, 
 
 func allTopologies_recur(t *Tree, nbTips, total int, trees *[]*Tree, tipNames ...string) (err error) {
 	if total == nbTips {
-		(*trees) = append(*trees, t.Clone())
+		c := t.Clone()
+		if r := c.Root(); r.Nneigh() == 1 {
+			// Rooted enumeration: the start node only holds the branch
+			// above the root, it is not part of the returned topology
+			n := r.Neigh()[0]
+			n.delNeighbor(r)
+			c.delNode(r)
+			c.SetRoot(n)
+			c.UpdateTipIndex()
+		}
+		(*trees) = append(*trees, c)
 	} else {
 		var e1, e2 *Edge
 		var n, n1 *Node
